@@ -10,6 +10,7 @@ package main
 
 import (
 	"cmp"
+	"math"
 	"math/rand"
 
 	"github.com/creachadair/mds/omap"
@@ -35,22 +36,40 @@ func c04exec(c *Ctx, st *c04state, op Op, rng *rand.Rand) Ev {
 	}
 	z, w := geti(op, "z"), geti(op, "w")
 	ev := Ev{"op": name, "i": i, "k": k, "v": v, "z": z, "w": w, "rev": st.rev, "res": true, "len": 0,
-		"keys": []int{}, "str": "", "gets": [][4]int{}, "it": [3]int{0, 0, 0}, "ck": 0}
+		"keys": []int{}, "str": "", "gets": [][4]int{}, "it": [3]int{0, 0, 0}, "ck": 0, "lo": geti(op, "lo"), "hi": geti(op, "hi"), "lite": 0}
 	guard(ev, func() {
 		if name == "new" {
 			st.rev = getb(op, "rev")
 			ev["rev"] = st.rev
 			ck := geti(op, "ck")
 			ev["ck"] = ck
-			switch {
-			case st.rev && ck == 1:
-				st.m = omap.NewFunc[int, int](func(a, b int) int { return 3 * (b - a) }) // any magnitude is a legal result
-			case st.rev:
-				st.m = omap.NewFunc[int, int](func(a, b int) int { return cmp.Compare(b, a) })
-			case ck == 1:
-				st.m = omap.NewFunc[int, int](func(a, b int) int { return a - b })
+			sign := 1
+			if st.rev {
+				sign = -1
+			}
+			switch ck { // any magnitude is a legal comparator result
+			case 1:
+				st.m = omap.NewFunc[int, int](func(a, b int) int { return sign * 3 * (a - b) })
+			case 2:
+				st.m = omap.NewFunc[int, int](func(a, b int) int { return sign * ((a - b) << 32) })
+			case 3:
+				st.m = omap.NewFunc[int, int](func(a, b int) int { return sign * ((a - b) << 31) })
+			case 4:
+				st.m = omap.NewFunc[int, int](func(a, b int) int {
+					switch c := sign * cmp.Compare(a, b); {
+					case c < 0:
+						return math.MinInt
+					case c > 0:
+						return math.MaxInt
+					}
+					return 0
+				})
 			default:
-				st.m = omap.New[int, int]()
+				if st.rev {
+					st.m = omap.NewFunc[int, int](func(a, b int) int { return cmp.Compare(b, a) })
+				} else {
+					st.m = omap.New[int, int]()
+				}
 			}
 			st.cp = st.m // a copy of the Map value shares storage
 			st.zero = omap.Map[int, int]{}
@@ -69,6 +88,24 @@ func c04exec(c *Ctx, st *c04state, op Op, rng *rand.Rand) Ev {
 		case "new", "look":
 		case "set":
 			ev["res"] = mp.Set(k, v)
+			st.stale = [3]bool{true, true, true}
+		case "bulkset": // Set(x, x) for x = lo .. hi-1 ascending; res = every key was new
+			all := true
+			for x := geti(op, "lo"); x < geti(op, "hi"); x++ {
+				if !mp.Set(x, x) {
+					all = false
+				}
+			}
+			ev["res"] = all
+			st.stale = [3]bool{true, true, true}
+		case "bulkdel": // Delete(x) for x = lo .. hi-1; res = every key was present
+			all := true
+			for x := geti(op, "lo"); x < geti(op, "hi"); x++ {
+				if !mp.Delete(x) {
+					all = false
+				}
+			}
+			ev["res"] = all
 			st.stale = [3]bool{true, true, true}
 		case "delete":
 			r := mp.Delete(k)
@@ -113,8 +150,13 @@ func c04exec(c *Ctx, st *c04state, op Op, rng *rand.Rand) Ev {
 			ev["it"] = [3]int{b2i(it.IsValid()), it.Key(), it.Value()}
 		}
 		ev["len"] = mp.Len()
-		ev["keys"] = ints(mp.Keys())
-		ev["str"] = mp.String()
+		if mp.Len() > 400 { // very large maps: Len, lookups and iterators only
+			ev["lite"] = 1
+			ev["keys"] = []int{len(mp.Keys())}
+		} else {
+			ev["keys"] = ints(mp.Keys())
+			ev["str"] = mp.String()
+		}
 		var gk []int
 		if has(op, "gets") {
 			for _, g := range getany(op, "gets") {
@@ -148,8 +190,29 @@ func runC04(c *Ctx) {
 	for _, p := range c.Paths {
 		if len(p) > 0 && getb(p[0], "rev") == wantRev {
 			replayC04(c, c.NewHist("tlc-path"), p)
-			p[0]["ck"] = 1
+			p[0]["ck"] = 1 + len(c.Paths[0])%4
+			p[0]["ck"] = []int{1, 2, 3, 4}[c.nextH%4]
 			replayC04(c, c.NewHist("tlc-path-diffcmp"), p)
+		}
+	}
+	// tens of thousands of entries: rebuilds of subtrees beyond 2^16 nodes
+	if !wantRev {
+		for i := 0; i < c.Pick(1, 3); i++ {
+			rng := c.Rng("c04-bulk", i)
+			h := c.NewHist("bulk")
+			st := &c04state{}
+			do := func(op Op) { h.Emit(c04exec(c, st, op, rng)) }
+			do(Op{"op": "new", "rev": false, "ck": []int{0, 1, 2}[i%3]})
+			n := 76000 + rng.Intn(30000)
+			do(Op{"op": "bulkset", "lo": 0, "hi": n})
+			do(Op{"op": "first", "i": 1})
+			do(Op{"op": "next", "i": 1})
+			do(Op{"op": "seek", "i": 2, "k": n - 3})
+			do(Op{"op": "next", "i": 2})
+			do(Op{"op": "bulkdel", "lo": 100, "hi": n - 100}) // shrinks below the rebuild threshold on the way
+			do(Op{"op": "last", "i": 1})
+			do(Op{"op": "prev", "i": 1})
+			do(Op{"op": "seek", "i": 2, "k": 150})
 		}
 	}
 	nh := c.Pick(300, 8000)
@@ -160,7 +223,7 @@ func runC04(c *Ctx) {
 			h := c.NewHist(kind)
 			st := &c04state{}
 			do := func(op Op) { h.Emit(c04exec(c, st, op, rng)) }
-			do(Op{"op": "new", "rev": wantRev, "ck": rng.Intn(2)})
+			do(Op{"op": "new", "rev": wantRev, "ck": rng.Intn(5)})
 			nk := []int{4, 8, 16, 40}[rng.Intn(4)]
 			if kind == "fill-drain" {
 				// grow well beyond 20 entries, then delete to a small remainder: the
